@@ -57,7 +57,22 @@ CLAIM = {
             'ratio 0/1/None, unit cell at the origin, cluster sizes 1..19 and squares incl. primes squared and 2^k+-1, '
             'zero counts, degenerate point processes) are covered by correspondence / oracle only: the model takes '
             'logical values and returns values, so type, layout and aliasing are facts about the tie, not the model. '
-            'All comparisons are relative to the input scale (inputs multiplied by 1e-12 .. 1e12).',
+            'All comparisons are relative to the input scale (inputs multiplied by 1e-12 .. 1e12). Second list: R8 (argument '
+            'forms: positional / keyword / default / explicit default / None, scalar = 0-d = length-1, constructor path = '
+            'setter path, Cluster path = cell path, many = repeated single, relative = absolute add_user) is covered by '
+            'theorems on the model (cluster_random_users_postcondition, cluster_requests_carry_arguments, '
+            'cluster_path_is_cell_path, cell_random_users_postcondition, random_users_are_repeated_single_placements, '
+            'add_user_relative_is_absolute; constructor = setter path is no_stale_state) AND by correspondence + oracles; '
+            'R12 (interleaving of additions to different cells: users_by_cell_order_independent) by theorem + '
+            'correspondence + oracle; R9 (cell / sector indexes and counts as every numpy integer type, np.intp, 0-d arrays, '
+            'bool, ids above 256 in 17x17 clusters), R10 (per-cell lists whose elements mix python ints, floats, numpy scalars '
+            'of several widths, lists next to ndarrays), R11 (queries, repr, users, plot with the Agg backend interleaved in '
+            'the histories and on clusters), R13 (deepcopy / pickle of cells, wraps, clusters; cells handed out by a cluster; '
+            'wraps following their cell) and R14 (257 / 258 / 300 users per cell, 65537 points, 289 / 324 cells) by '
+            'correspondence / oracle only (theorems already hold for all sizes; the model has no types, object identity or '
+            'serialisation). Not applicable: negative indices (not documented), save/load and to_dict/from_dict round trips '
+            '(the cell package has none), *_in_dB variants, dict / set containers of results (cells and users are lists '
+            'whose order IS documented).',
 }
 
 TOL = 1e-9
@@ -960,6 +975,11 @@ def o_history(case):
             abs(complex(obj.rotation).real - rot) > 1e-12 * abs(rot):
         return cls('attributes'), 'pos/radius/rotation read back %r %r %r, expected %r %r %r' % (
             obj.pos, obj.radius, obj.rotation, pos, R, rot)
+    # a wrap reads radius and rotation from the cell it wraps, whatever happened to that cell since
+    if wrap is not None and (abs(float(wrap.radius) - R) > 1e-12 * R or abs(complex(wrap.rotation).real - rot) > 1e-12 * abs(rot)
+                             or abs(complex(wrap.pos) - wpos) > tol):
+        return cls('wrap-attributes'), 'the CellWrap reports pos/radius/rotation %r %r %r, the wrapped cell has radius %r rotation %r' % (
+            wrap.pos, wrap.radius, wrap.rotation, R, rot)
     # the users have followed every move of the cell
     if kind != 'rect':
         got_users = [complex(u.pos) for u in obj.users]
@@ -3675,8 +3695,9 @@ def o_hetero(case):
         rats = [r for _, r in case['angles']]
         a, b = make_shape(spec), make_shape(spec)
         b.add_border_user([float(x) for x in angs], [float(x) for x in rats])
-        a.add_border_user([mix[pat[i % len(pat)]](x) for i, x in enumerate(angs)],
-                          [mix[pat[(i + 1) % len(pat)]](x) for i, x in enumerate(rats)])
+        # the FIRST elements are python ints (value-preserving), later ones floats / numpy scalars of other widths
+        a.add_border_user([mix[0 if i == 0 else pat[i % len(pat)]](x) for i, x in enumerate(angs)],
+                          [mix[0 if i == 0 else pat[(i + 1) % len(pat)]](x) for i, x in enumerate(rats)])
         if not same_pts([complex(u.pos) for u in a.users], [complex(u.pos) for u in b.users], tol):
             return cls, 'mixed element types give %s, floats give %s' % ([u.pos for u in a.users][:3], [u.pos for u in b.users][:3])
         return None
@@ -3944,7 +3965,8 @@ def more_oracles(ctx, n):
     for kind in ('hex', 'sec3', 'square'):
         spec = gen_spec(rng, [kind], 0)
         run_oracle(ctx, 'heterogeneous', {'what': 'add_border_user', 'spec': spec, 'pattern': [rng.below(6) for _ in range(4)],
-                                          'angles': [[float(rng.randint(-12, 12) * 15), rng.choice([1.0, 0.5, 0.25])] for _ in range(5)],
+                                          'angles': [[float(rng.randint(-12, 12) * 15), 1.0 if i_ == 0 else rng.choice([0.5, 0.25, 0.75])]
+                                                     for i_ in range(5)],
                                           'tag': 'R10:heterogeneous'}, key=('r10b', kind))
     for ctype, n_ in (('simple', 7), ('3sec', 7), ('square', 9)):
         k = 4
@@ -4002,6 +4024,14 @@ def more_oracles(ctx, n):
         run_oracle(ctx, 'calc_dist_all_users_to_each_cell', case, key=('r14d', m))
         run_oracle(ctx, 'pointprocess', {'what': 'circle', 'n': m, 'rmax': 3.0, 'rmin': 1.0, 'draws': None, 'npseed': 3, 'tag': 'R14:counts'},
                    key=('r14p', m))
+    for m in big:
+        for entry, form in (('Cell.add_random_users', None), ('Cluster.add_random_users', 'int'), ('Cluster.add_random_users', 'list')):
+            pc = gen_placement_case(rng, entry, form, set())
+            pc.update(nums=m, ratios=0.3, tag='R14:counts', draws=None, npseed=rng.below(2 ** 31))
+            run_oracle(ctx, 'user_placement', pc, key=('r14n', entry, form, m))
+        pc = gen_placement_case(rng, 'Cell3Sec.add_random_users_in_sector')
+        pc.update(nums=m, single=False, ratios=0.3, tag='R14:counts', draws=None, npseed=rng.below(2 ** 31))
+        run_oracle(ctx, 'user_placement', pc, key=('r14sec', m))
     run_oracle(ctx, 'pointprocess', {'what': 'rectangle', 'n': 65537, 'w': 3.0, 'h': 1.0, 'draws': None, 'npseed': 3, 'tag': 'R14:counts'})
     for n_ in ([289] if ctx.tier == 'quick' else [289, 324]):
         run_oracle(ctx, 'Cluster', {'type': 'square', 'n': n_, 'R': gen_radius(rng), 'rot': gen_rot(rng), 'pos': gen_pos(rng), 'tag': 'R14:counts',
